@@ -193,6 +193,8 @@ type Exec struct {
 	bounded   int // >0: bounded concretisation mode (loop unroll bound)
 	pendingBinds []Value
 	specEval  int
+	coverN    map[string]int // vacuity queries emitted so far, per label
+	pkgPath   string // package of the unit under verification (scope of spec functions and axioms)
 	safetyOnly bool // only run-time safety obligations are generated (property tag "Cxx:safety")
 	boundedRun bool // bounded stand-in run of a contract with "bounded" clauses
 	boundN    int
@@ -215,7 +217,48 @@ func newExec(prog *Program, db *ContractDB, unit string) *Exec {
 
 // useOpaque applies the opaque-type declarations of the unit's own package
 // (and of the assumed files) — opacity is a per-unit modelling choice.
+// pkgContracts: the contract files visible to the unit's package (its own and the
+// shared assumed ones), in a fixed order.  Spec functions and axioms are scoped by
+// package: two packages may each declare, say, serviceOK.
+func (x *Exec) pkgContracts() []*PkgContracts {
+	var keys []string
+	for k, pc := range x.db.Pkgs {
+		if pc.Pkg == x.pkgPath || pc.Pkg == "" {
+			keys = append(keys, k)
+		}
+	}
+	sort.Strings(keys)
+	var out []*PkgContracts
+	for _, k := range keys {
+		out = append(out, x.db.Pkgs[k])
+	}
+	return out
+}
+
+func (x *Exec) lookupSpec(name string) *SpecFunc {
+	for _, pc := range x.pkgContracts() {
+		if sf, ok := pc.Specs[name]; ok {
+			return sf
+		}
+	}
+	// a contract of another loaded package applied at a call site: its spec functions are
+	// visible if the name is unambiguous
+	var found *SpecFunc
+	n := 0
+	for _, pc := range x.db.Pkgs {
+		if sf, ok := pc.Specs[name]; ok {
+			found = sf
+			n++
+		}
+	}
+	if n == 1 {
+		return found
+	}
+	return nil
+}
+
 func (x *Exec) useOpaque(pkgPath string) {
+	x.pkgPath = pkgPath
 	for _, pc := range x.db.Pkgs {
 		if pc.Pkg == pkgPath || pc.Pkg == "" {
 			for k, v := range pc.Opaque {
@@ -889,4 +932,16 @@ func heapNames(m map[string]string) []string {
 	}
 	sort.Strings(ks)
 	return ks
+}
+
+
+// coverBudget: vacuity (reachability) queries are satisfiability questions over the whole
+// path condition; one per path multiplies the solver load without adding protection, so
+// each label (a loop head, the returns) is covered on its first few paths only.
+func (x *Exec) coverBudget(label string) bool {
+	if x.coverN == nil {
+		x.coverN = map[string]int{}
+	}
+	x.coverN[label]++
+	return x.coverN[label] <= 2
 }
